@@ -393,3 +393,42 @@ func cmdCheck(args []string) int {
 func (c *CheckCtx) funcsIn(pkgs ...string) []*ssa.Function {
 	return c.eng.moduleFuncs(pkgs...)
 }
+
+// runLemmas proves the spec-level lemmas tagged with the property id.
+func (c *CheckCtx) runLemmas(prop string) {
+	for _, lm := range c.eng.contracts.lemmas {
+		tagged := false
+		for _, p := range lm.props {
+			if p == prop {
+				tagged = true
+			}
+		}
+		if !tagged || lm.goal == nil {
+			continue
+		}
+		tr := c.eng.bareTr()
+		st := tr.rootAct.entryState
+		vars := map[string]specVal{}
+		for i, v := range lm.vars {
+			t := tr.freshConst("lv_"+v, tr.eng.sorts.sortOf(lm.types[i]))
+			vars[v] = specVal{t, lm.types[i]}
+			tr.rootAct.assumeWF(st, lm.types[i], t, 1)
+		}
+		var errs []string
+		e := &specEnv{tr: tr, pkg: lm.pkg, st: st, old: st, vars: vars, errs: &errs}
+		for _, h := range lm.hyps {
+			tr.assume(e.evalBool(h.expr), "lemma hypothesis: "+h.text)
+		}
+		goal := e.evalBool(lm.goal.expr)
+		for _, m := range errs {
+			c.machineryErrors = append(c.machineryErrors, "lemma "+lm.name+": "+m)
+		}
+		o := &Obligation{Name: "lemma/" + lm.name + "/«" + normSrc(lm.goal.text) + "»", Kind: "lemma", Fn: "spec", Src: lm.goal.text, Guard: "true", Goal: goal}
+		tr.obls = append(tr.obls, o)
+		tr.discharge(c.cfg, 4, nil)
+		c.trs = append(c.trs, tr)
+		c.obls = append(c.obls, o)
+		c.oblTr[o] = tr
+		c.funcs["lemma "+lm.name] = true
+	}
+}
